@@ -232,7 +232,7 @@ def classify_exception(e: BaseException) -> str:
 
 
 def run_world(build, until, chooser, lazy=True, cache=True, max_loop_iterations=100, rt_factor=None, rt_strict=False,
-              before_run=None, time_resolution=1.0):
+              before_run=None, time_resolution=1.0, debug=False):
     """Build a world with `build(world, ctl)` and run it under the controlled loop.
     Returns (outcome string, controller)."""
     loop = CtlLoop(virtual=rt_factor is not None)
@@ -240,7 +240,8 @@ def run_world(build, until, chooser, lazy=True, cache=True, max_loop_iterations=
     ctl = Controller(loop, chooser)
     ScriptSim.REG.clear()
     world = mosaik.World({"S": {"python": "verif_script:ScriptSim"}}, asyncio_loop=loop, cache=cache,
-                         skip_greetings=True, max_loop_iterations=max_loop_iterations, time_resolution=time_resolution)
+                         skip_greetings=True, max_loop_iterations=max_loop_iterations, time_resolution=time_resolution,
+                         **({"debug": True} if debug else {}))
     ctl.world = world
     outcome = None
     saved_run = scheduler.run
